@@ -2341,7 +2341,16 @@ func (x *Exec) loopRef(st *State, fr *Frame, ld *loopDesc) string {
 			break
 		}
 	}
-	for i, v := range x.virtualLoops(x.Top, nil, 0) {
+	vl := x.virtualLoops(x.Top, nil, 0)
+	if rec := recordedLoops(x.TopName); rec >= 0 && rec != len(vl) {
+		// the helpers did not just take over loops the recorded function had (they brought new ones, or
+		// loops were removed): nothing is renumbered; a loop inside a helper then has no clauses
+		if fr != st.frames[0] {
+			return "helper:" + fr.fn.Name() + "#" + own
+		}
+		return own
+	}
+	for i, v := range vl {
 		if v.header != ld.header || len(v.chain) != len(chain) {
 			continue
 		}
